@@ -259,7 +259,7 @@ def adfStep (a : AdfSt) (l : String) (ws : List String) : Option (List String ×
     | _, _ => some ([l, "= bad-request"], a)
   | "memocheckn" :: n :: t :: rest =>
     match parseTable t, n.toNat? with
-    | some ns, some n => some ([l, s!"= audit {memoCheck n true ns rest}"], a)
+    | some ns, some n => some ([l, s!"= audit {MemoCheck.verdict n true ns rest (fun _ => memoCheck n true ns rest)}"], a)
     | _, _ => some ([l, "= bad-request"], a)
   | [what, p] =>
     if what == "adump" then
